@@ -437,18 +437,35 @@ fn main() {
         let c = Cfg { peers: w["detail"]["peers"].as_u64().unwrap_or(3) as usize, repos: w["detail"]["repos"].as_u64().unwrap_or(2) as usize };
         ctx.finish_replay(explore::replay::<Sys>("C16", move || Sys::new(c), &w));
     }
-    let mut res = explore::explore("C16", make, Bounds::new(depth, devs).wall_secs(if thorough { 1500 } else { 50 }));
+    let mut res = explore::explore("C16", make, Bounds::new(depth, devs).wall_secs(if thorough { 1200 } else { 50 }));
     // Tag witnesses with the configuration so that replays rebuild the same system.
     for (_, (ws, _)) in res.violations.by_fp.iter_mut() {
         for w in ws {
             w.witness["detail"] = json!({"peers": cfg.peers, "repos": cfg.repos});
         }
     }
+    // Thorough: a second, deeper pass on the small configuration (the stale-result-to-another-peer
+    // shape needs seven events with two peers).
+    let mut second = None;
+    if thorough {
+        let small = Cfg { peers: 2, repos: 1 };
+        let mut deep = explore::explore("C16", move || Sys::new(small), Bounds::new(8, 3).wall_secs(900));
+        for (_, (ws, _)) in deep.violations.by_fp.iter_mut() {
+            for w in ws {
+                w.witness["detail"] = json!({"peers": small.peers, "repos": small.repos});
+            }
+        }
+        res.violations.merge(std::mem::take(&mut deep.violations));
+        second = Some(deep.coverage("second pass: 2 peers, 1 repository, depth 8, deviation budget 3"));
+    }
     let mut cov = res.coverage(
         "BFS over all histories of {Connect, Disconnect, FetchCmd(repo,peer), RefsAnn(repo,peer), Result(token, ok|err|timeout), Idle} applied to a real Service \
          (fetch_concurrency=1); deviations = Disconnect, fetch command to a peer that is not connected, result of a token whose peer disconnected since emission; \
          states are canonical keys of (sessions with per-session fetching sets and queues, Service::fetching, wire-level connection sets, outstanding tokens with live flag, waiting subscribers, idle count)",
     );
+    if let Some(s) = second {
+        cov.insert("second_pass_small_configuration".into(), serde_json::Value::Object(s));
+    }
     cov.insert("peers".into(), json!(cfg.peers));
     cov.insert("repos".into(), json!(cfg.repos));
     cov.insert("dropped_before_handler".into(), json!({"rate_limited": svc::RATE_LIMITED.load(std::sync::atomic::Ordering::Relaxed), "session_not_found": svc::SESSION_NOT_FOUND.load(std::sync::atomic::Ordering::Relaxed)}));
